@@ -118,6 +118,79 @@ Definition render_dpiece (p : dpiece) : list Z :=
   end.
 Definition render_dt (ps : list dpiece) : list Z := concat (map render_dpiece ps).
 
+Definition closer_bytes (k : ttype) : list Z :=
+  match k with TStartTagCloseVoid => [47; 62] | TStartTagClosePI => [63; 62] | _ => [62] end.
+Definition is_closer_ty (k : ttype) : Prop := k = TStartTagClose \/ k = TStartTagCloseVoid \/ k = TStartTagClosePI.
+
+(* what may follow a name inside a tag: whitespace, '>', '/>', '?>' (and '=' after an attribute name) *)
+Definition name_end (eq : bool) (l : list Z) : Prop :=
+  exists c t, l = c :: t /\ name_stop eq c (getz t 0) = true /\ ((c = 47 \/ c = 63) -> t <> []).
+
+(* ---- the general shape of what the lexer returns inside a tag (start tag or processing instruction) ------- *)
+(* a piece: optional whitespace, a name (bytes that do not stop the name loop: '/' and '?' are allowed unless
+   followed by '>'), then nothing, or '=' and an unquoted value, or '=' and a quoted value *)
+Inductive gval :=
+| VNone
+| VUnq (ws1 ws2 val : list Z)
+| VQuo (ws1 ws2 : list Z) (q : Z) (val : list Z).
+Record gattr := mkG { g_lead : list Z; g_name : list Z; g_val : gval }.
+
+Definition render_gval (v : gval) : list Z :=
+  match v with
+  | VNone => []
+  | VUnq w1 w2 x => w1 ++ [61] ++ w2 ++ x
+  | VQuo w1 w2 q x => w1 ++ [61] ++ w2 ++ [q] ++ x ++ [q]
+  end.
+Definition norm_gval (v : gval) : list Z :=
+  match v with
+  | VQuo w1 w2 q x => w1 ++ [61] ++ w2 ++ [q] ++ map ws2sp x ++ [q]
+  | _ => render_gval v
+  end.
+Definition gval_obs (v : gval) : option (list Z) :=
+  match v with
+  | VNone => None
+  | VUnq _ _ x => Some x
+  | VQuo _ _ q x => Some ([q] ++ map ws2sp x ++ [q])
+  end.
+Definition render_gattr (a : gattr) : list Z := g_lead a ++ g_name a ++ render_gval (g_val a).
+Definition norm_gattr (a : gattr) : list Z := g_lead a ++ g_name a ++ norm_gval (g_val a).
+Definition expect_gattr (a : gattr) : etok := (TAttribute, Some (norm_gattr a), Some (g_name a), gval_obs (g_val a)).
+Definition render_gattrs (l : list gattr) : list Z := concat (map render_gattr l).
+Definition norm_gattrs (l : list gattr) : list Z := concat (map norm_gattr l).
+
+(* no byte of n stops the name loop; nxt is the byte after n *)
+Fixpoint name_run (eq : bool) (n : list Z) (nxt : Z) : Prop :=
+  match n with
+  | [] => True
+  | c :: t => name_stop eq c (match t with [] => nxt | c1 :: _ => c1 end) = false /\ name_run eq t nxt
+  end.
+
+(* the first byte of rest that is not whitespace exists and is not '=' *)
+Definition next_not_eq (rest : list Z) : Prop :=
+  exists w c t, rest = w ++ c :: t /\ Forall (fun x => is_ws x = true) w /\ is_ws c = false /\ c <> 61.
+
+(* side conditions of a piece followed (inside the tag) by rest *)
+Definition gattr_ok (a : gattr) (rest : list Z) : Prop :=
+  Forall (fun x => is_ws x = true) (g_lead a) /\
+  match g_val a with
+  | VNone => g_name a <> [] /\ name_run true (g_name a) (getz rest 0) /\ name_end true rest /\ next_not_eq rest
+  | VUnq w1 w2 x =>
+      Forall (fun c => is_ws c = true) w1 /\ Forall (fun c => is_ws c = true) w2 /\ (g_name a = [] -> w1 = []) /\
+      name_run true (g_name a) (getz (w1 ++ [61]) 0) /\
+      name_run false x (getz rest 0) /\ name_end false rest /\
+      is_ws (getz (x ++ rest) 0) = false /\ getz (x ++ rest) 0 <> 34 /\ getz (x ++ rest) 0 <> 39
+  | VQuo w1 w2 q x =>
+      Forall (fun c => is_ws c = true) w1 /\ Forall (fun c => is_ws c = true) w2 /\ (g_name a = [] -> w1 = []) /\
+      name_run true (g_name a) (getz (w1 ++ [61]) 0) /\
+      (q = 34 \/ q = 39) /\ Forall (fun c => c <> q /\ c <> 0) x
+  end.
+
+Fixpoint gattrs_ok (l : list gattr) (tail : list Z) : Prop :=
+  match l with
+  | [] => True
+  | a :: t => gattr_ok a (render_gattrs t ++ tail) /\ gattrs_ok t tail
+  end.
+
 Inductive item :=
 | IText (t : list Z)
 | IComment (body : list Z)
@@ -125,7 +198,9 @@ Inductive item :=
 | IDoctype (body : list dpiece)
 | IPI (target : list Z) (attrs : list attr) (ws : list Z)
 | IStart (name : list Z) (attrs : list attr) (ws : list Z) (void : bool)
-| IEnd (name : list Z) (ws : list Z).
+| IEnd (name : list Z) (ws : list Z)
+(* the general tag opener: '<' or '<?', a name, pieces, whitespace, any of the three closers *)
+| ITag (pi : bool) (name : list Z) (pieces : list gattr) (ws : list Z) (k : ttype).
 
 Definition lt_bang : list Z := [60; 33].
 Definition open_comment : list Z := [60; 33; 45; 45].
@@ -144,6 +219,7 @@ Definition render_item (it : item) : list Z :=
   | IPI t attrs ws => [60; 63] ++ t ++ render_attrs attrs ++ ws ++ [63; 62]
   | IStart n attrs ws void => [60] ++ n ++ render_attrs attrs ++ ws ++ (if void then [47; 62] else [62])
   | IEnd n ws => [60; 47] ++ n ++ ws ++ [62]
+  | ITag pi n ps ws k => (if pi then [60; 63] else [60]) ++ n ++ render_gattrs ps ++ ws ++ closer_bytes k
   end.
 
 (* the same bytes as the buffer holds them afterwards *)
@@ -151,6 +227,7 @@ Definition norm_item (it : item) : list Z :=
   match it with
   | IPI t attrs ws => [60; 63] ++ t ++ norm_attrs attrs ++ ws ++ [63; 62]
   | IStart n attrs ws void => [60] ++ n ++ norm_attrs attrs ++ ws ++ (if void then [47; 62] else [62])
+  | ITag pi n ps ws k => (if pi then [60; 63] else [60]) ++ n ++ norm_gattrs ps ++ ws ++ closer_bytes k
   | _ => render_item it
   end.
 
@@ -167,6 +244,9 @@ Definition expect_item (it : item) : list etok :=
       (TStartTag, Some ([60] ++ n), Some n, None) :: map expect_attr attrs
       ++ [if void then (TStartTagCloseVoid, Some [47; 62], None, None) else (TStartTagClose, Some [62], None, None)]
   | IEnd n ws => [(TEndTag, Some (render_item it), Some n, None)]
+  | ITag pi n ps ws k =>
+      ((if pi then TStartTagPI else TStartTag), Some ((if pi then [60; 63] else [60]) ++ n), Some n, None)
+      :: map expect_gattr ps ++ [(k, Some (closer_bytes k), None, None)]
   end.
 
 (* the closer does not start inside body (even when completed by the closer's own bytes) *)
@@ -183,6 +263,9 @@ Definition item_ok (it : item) : Prop :=
   | IPI t attrs ws => is_name false t /\ Forall attr_ok attrs /\ all_ws ws
   | IStart n attrs ws void => is_name false n /\ getz n 0 <> 33 /\ Forall attr_ok attrs /\ all_ws ws
   | IEnd n ws => is_name false n /\ all_ws ws
+  | ITag pi n ps ws k =>
+      is_name false n /\ (pi = false -> getz n 0 <> 33) /\ all_ws ws /\ is_closer_ty k /\
+      gattrs_ok ps (ws ++ closer_bytes k) /\ name_end false (render_gattrs ps ++ ws ++ closer_bytes k)
   end.
 
 Definition is_text (it : item) : bool := match it with IText _ => true | _ => false end.
@@ -724,8 +807,6 @@ Qed.
 
 (* ---- start tags and processing-instruction targets ------------------------------------------------------------------- *)
 (* what may follow a name inside a tag: whitespace, '>', "/>", "?>" (and '=' after an attribute name) *)
-Definition name_end (eq : bool) (l : list Z) : Prop :=
-  exists c t, l = c :: t /\ name_stop eq c (getz t 0) = true /\ ((c = 47 \/ c = 63) -> t <> []).
 
 Lemma scan_name_end eq n l : Forall (fun c => name_char eq c = true) n -> name_end eq l ->
   scan_name eq (n ++ l) = Some (len n).
@@ -736,9 +817,6 @@ Proof.
   intros H. exists c, t. split; [reflexivity|]. unfold is_ws, name_stop in *. split; [lia|]. intros [->| ->]; discriminate.
 Qed.
 
-Definition closer_bytes (k : ttype) : list Z :=
-  match k with TStartTagCloseVoid => [47; 62] | TStartTagClosePI => [63; 62] | _ => [62] end.
-Definition is_closer_ty (k : ttype) : Prop := k = TStartTagClose \/ k = TStartTagCloseVoid \/ k = TStartTagClosePI.
 
 Lemma name_end_closer eq k r : is_closer_ty k -> name_end eq (closer_bytes k ++ r).
 Proof.
@@ -935,6 +1013,293 @@ Proof.
   unfold sout. rewrite <- app_assoc in S. exact S.
 Qed.
 
+(* ---- the general pieces inside a tag --------------------------------------------------------------------------- *)
+Lemma scan_name_cons eq c t : t <> [] ->
+  scan_name eq (c :: t) = if name_stop eq c (getz t 0) then Some 0 else n <- scan_name eq t ;; Some (1 + n).
+Proof.
+  intros Ht. rewrite scan_name_step. unfold closer_ahead, name_stop. destruct t as [|c1 t']; [congruence|].
+  rewrite getz_cons_0. destruct ((c =? 47) || (c =? 63)); cbn [option_bind andb]; reflexivity.
+Qed.
+
+Lemma getz_app_hd (a b : list Z) : a <> [] -> getz (a ++ b) 0 = getz a 0.
+Proof. intros H. destruct a; [congruence|]. reflexivity. Qed.
+
+Lemma scan_name_run eq n : forall Y, Y <> [] -> name_run eq n (getz Y 0) -> name_end eq Y ->
+  scan_name eq (n ++ Y) = Some (len n).
+Proof.
+  induction n as [|c n IH]; intros Y HY Hr He.
+  - destruct He as (c & t & -> & H1 & H2). apply (scan_name_app eq [] c t); [constructor|exact H1|exact H2].
+  - cbn [app]. destruct Hr as (Hc & Hr). rewrite scan_name_cons by (destruct n; [exact HY|discriminate]).
+    assert (E : getz (n ++ Y) 0 = match n with [] => getz Y 0 | c1 :: _ => c1 end) by (destruct n; reflexivity).
+    rewrite E, Hc. rewrite IH by assumption. cbn [option_bind]. rewrite len_cons. reflexivity.
+Qed.
+
+Lemma name_stop_indep eq c x y : c <> 47 -> c <> 63 -> name_stop eq c x = name_stop eq c y.
+Proof. intros H1 H2. unfold name_stop. destruct (Z.eqb_spec c 47); [congruence|]. destruct (Z.eqb_spec c 63); [congruence|]. reflexivity. Qed.
+
+Lemma name_end_app eq rest r : name_end eq rest -> name_end eq (rest ++ r).
+Proof.
+  intros (c & t & -> & H1 & H2). exists c, (t ++ r). split; [reflexivity|]. split.
+  - destruct (Z.eq_dec c 47) as [E|E]; [|destruct (Z.eq_dec c 63) as [E'|E']].
+    + rewrite getz_app_hd by (apply H2; auto). exact H1.
+    + rewrite getz_app_hd by (apply H2; auto). exact H1.
+    + rewrite (name_stop_indep eq c _ (getz t 0)) by assumption. exact H1.
+  - intros Hc Hn. apply app_eq_nil in Hn. destruct Hn as (Hn & _). exact (H2 Hc Hn).
+Qed.
+
+Lemma name_end_nonnil eq l : name_end eq l -> l <> [].
+Proof. intros (c & t & -> & _). discriminate. Qed.
+
+(* the dispatch of Next inside a tag on a byte that starts an attribute *)
+Lemma next_intag_attr pre lead c X' tx ax : Forall (fun x => is_ws x = true) lead -> is_ws c = false ->
+  c <> 0 -> c <> 62 -> ((c = 47 \/ c = 63) -> X' <> [] /\ getz X' 0 <> 62) ->
+  next (sin pre (lead ++ c :: X') tx ax) =
+  (r <- shift_attribute (cur pre lead (c :: X')) ;;
+   Some (TAttribute, Some (snd (fst r)), mkX (snd r) false true (fst (fst (fst r))) (snd (fst (fst r))))).
+Proof.
+  intros Hl Hws H0 H62 Hc. unfold sin, next. cbn [xin xr xerr xattr xtext]. rewrite suffix_cur.
+  rewrite (scan_while_app is_ws lead c X' Hl Hws). cbn [option_bind]. rewrite mv_cur by reflexivity. cbn [app].
+  rewrite pk_cur0. cbn [option_bind]. destruct (Z.eqb_spec c 0); [congruence|]. destruct (Z.eqb_spec c 62); [congruence|].
+  destruct ((c =? 47) || (c =? 63)) eqn:E; [|reflexivity].
+  destruct (Hc ltac:(lia)) as (Hne & H1). destruct X' as [|c1 X'']; [congruence|]. rewrite getz_cons_0 in H1.
+  rewrite pk_cur1. cbn [option_bind]. destruct (Z.eqb_spec c1 62); [congruence|]. reflexivity.
+Qed.
+
+Lemma name_run_head eq c n nxt : name_run eq (c :: n) nxt ->
+  name_stop eq c (match n with [] => nxt | c1 :: _ => c1 end) = false.
+Proof. intros (H & _). exact H. Qed.
+
+(* entry facts for a piece whose first byte after the whitespace is c, followed by c1 *)
+Lemma stop_false_facts c c1 : name_stop true c c1 = false ->
+  is_ws c = false /\ c <> 0 /\ c <> 62 /\ c <> 61 /\ ((c = 47 \/ c = 63) -> c1 <> 62).
+Proof. unfold name_stop, is_ws. intros H. repeat split; try lia. Qed.
+
+Lemma ws_false_61 : is_ws 61 = false. Proof. reflexivity. Qed.
+
+Lemma all_ws_61 w1 rest : Forall (fun c => is_ws c = true) w1 -> name_end true (w1 ++ 61 :: rest).
+Proof. apply name_end_eq. Qed.
+
+(* name = value, value quoted, general name *)
+Lemma lex_gattr_quo pre lead name w1 w2 q val R tx ax :
+  gattr_ok (mkG lead name (VQuo w1 w2 q val)) R ->
+  exists tx' ax', steps (sin pre (render_gattr (mkG lead name (VQuo w1 w2 q val)) ++ R) tx ax)
+                        [expect_gattr (mkG lead name (VQuo w1 w2 q val))]
+                        (sin (pre ++ norm_gattr (mkG lead name (VQuo w1 w2 q val))) R tx' ax').
+Proof.
+  intros (Hlw & Hw1 & Hw2 & Hne & Hn & Hq & Hv). cbn [g_lead g_name g_val] in *.
+  unfold render_gattr, expect_gattr, norm_gattr. cbn [g_lead g_name g_val render_gval norm_gval gval_obs].
+  assert (Hq0 : q <> 0) by lia.
+  set (tk4 := (((lead ++ name) ++ w1) ++ [61]) ++ w2).
+  set (tk6 := ((tk4 ++ [q]) ++ map ws2sp val) ++ [q]).
+  set (Y := w1 ++ 61 :: w2 ++ q :: val ++ q :: R).
+  assert (HY : Y <> []) by (unfold Y; destruct w1; discriminate).
+  assert (EY : getz Y 0 = getz (w1 ++ [61]) 0) by (unfold Y; destruct w1; reflexivity).
+  assert (Hdisp : exists c X', name ++ Y = c :: X' /\ is_ws c = false /\ c <> 0 /\ c <> 62 /\
+                   ((c = 47 \/ c = 63) -> X' <> [] /\ getz X' 0 <> 62)).
+  { destruct name as [|c n'].
+    - pose proof (Hne eq_refl) as Ew. exists 61, (w2 ++ q :: val ++ q :: R). unfold Y. rewrite Ew. cbn [app].
+      split; [reflexivity|]. split; [reflexivity|]. split; [lia|]. split; [lia|]. intros [H|H]; discriminate.
+    - exists c, (n' ++ Y). split; [reflexivity|]. pose proof (name_run_head _ _ _ _ Hn) as Hs.
+      assert (E : match n' with [] => getz (w1 ++ [61]) 0 | c1 :: _ => c1 end = getz (n' ++ Y) 0)
+        by (destruct n'; [cbn [app]; rewrite EY|]; reflexivity).
+      rewrite E in Hs. destruct (stop_false_facts _ _ Hs) as (F1 & F2 & F3 & F4 & F5).
+      split; [exact F1|]. split; [exact F2|]. split; [exact F3|]. intros Hc. split; [|apply F5; exact Hc].
+      destruct n'; [exact HY|discriminate]. }
+  destruct Hdisp as (c & X' & EX & D1 & D2 & D3 & D4).
+  assert (Hnx : next (sin pre (lead ++ name ++ Y) tx ax) =
+                Some (TAttribute, Some (len pre, len pre + len tk6),
+                      mkX (cur (pre ++ tk6) [] R) false true
+                          (Some (len pre + len lead, len pre + len (lead ++ name)))
+                          (Some (len pre + len tk4, len pre + len tk6)))).
+  { rewrite EX. rewrite next_intag_attr by assumption. rewrite <- EX.
+    unfold shift_attribute. rewrite suffix_cur.
+    rewrite scan_name_run by (first [assumption | (rewrite EY; exact Hn) | (apply name_end_eq; exact Hw1)]).
+    cbn [option_bind]. rewrite mv_cur by reflexivity. rewrite suffix_cur. unfold Y.
+    rewrite (scan_while_app is_ws w1 61 _ Hw1 eq_refl). cbn [option_bind]. rewrite mv_cur by reflexivity.
+    rewrite pk_cur0. cbn [option_bind]. change (61 =? 61) with true. cbv iota.
+    rewrite mv_cur1. rewrite suffix_cur.
+    rewrite (scan_while_app is_ws w2 q _ Hw2) by (apply is_ws_false_of; lia).
+    cbn [option_bind]. rewrite mv_cur by reflexivity. fold tk4. rewrite pk_cur0. cbn [option_bind].
+    replace ((q =? 34) || (q =? 39)) with true by lia.
+    rewrite mv_cur1. rewrite quoted_value_cur by assumption. cbn [option_bind]. fold tk6.
+    rewrite !mark_cur.
+    assert (L46 : len tk4 <= len tk6).
+    { unfold tk6. rewrite !len_app. pose proof (len_nonneg (map ws2sp val)). change (len [q]) with 1. lia. }
+    assert (L6 : len (lead ++ name) <= len tk6).
+    { pose proof (len_nonneg w1). pose proof (len_nonneg w2). unfold tk4 in L46. rewrite !len_app in L46.
+      rewrite len_app. change (len [61]) with 1 in L46. lia. }
+    rewrite lex_sub_cur by (pose proof (len_nonneg tk4); lia). cbn [option_bind fst snd].
+    rewrite lex_sub_cur by (rewrite ?len_app; pose proof (len_nonneg lead); pose proof (len_nonneg name); try lia;
+                            rewrite len_app in L6; lia).
+    cbn [option_bind]. rewrite shift_c_cur. cbn [option_bind fst snd]. reflexivity. }
+  assert (E6 : tk6 = lead ++ name ++ w1 ++ [61] ++ w2 ++ [q] ++ map ws2sp val ++ [q]).
+  { unfold tk6, tk4. rewrite <- !app_assoc. reflexivity. }
+  assert (E64 : tk6 = tk4 ++ ([q] ++ map ws2sp val ++ [q])).
+  { unfold tk6. rewrite <- !app_assoc. reflexivity. }
+  do 2 eexists.
+  pose proof (steps_one _ _ _ _ Hnx ltac:(discriminate)) as S.
+  unfold etok_of in S. cbn [xr xtext xattr] in S.
+  rewrite obs_cur in S.
+  assert (Ea : obs_sl (lbuf (cur (pre ++ tk6) [] R)) (Some (len pre + len tk4, len pre + len tk6))
+               = Some ([q] ++ map ws2sp val ++ [q])).
+  { rewrite E64. apply (obs_cur_in2 pre tk4 ([q] ++ map ws2sp val ++ [q]) R); [reflexivity|].
+    rewrite len_app. lia. }
+  rewrite Ea in S. clear Ea. rewrite E6 in S.
+  rewrite (obs_cur_in pre lead name (w1 ++ [61] ++ w2 ++ [q] ++ map ws2sp val ++ [q]) R) in S
+    by (rewrite ?len_app; lia).
+  unfold sin, Y in *. rewrite <- !app_assoc. cbn [app] in *. exact S.
+Qed.
+
+(* name = unquoted value *)
+Lemma lex_gattr_unq pre lead name w1 w2 x R tx ax :
+  gattr_ok (mkG lead name (VUnq w1 w2 x)) R ->
+  exists tx' ax', steps (sin pre (render_gattr (mkG lead name (VUnq w1 w2 x)) ++ R) tx ax)
+                        [expect_gattr (mkG lead name (VUnq w1 w2 x))]
+                        (sin (pre ++ norm_gattr (mkG lead name (VUnq w1 w2 x))) R tx' ax').
+Proof.
+  intros (Hlw & Hw1 & Hw2 & Hne & Hn & Hx & HeR & Dws & D34 & D39). cbn [g_lead g_name g_val] in *.
+  unfold render_gattr, expect_gattr, norm_gattr. cbn [g_lead g_name g_val render_gval norm_gval gval_obs].
+  pose proof (name_end_nonnil _ _ HeR) as HR.
+  set (tk4 := (((lead ++ name) ++ w1) ++ [61]) ++ w2).
+  set (tk6 := tk4 ++ x).
+  remember (x ++ R) as Z2 eqn:EZ2. destruct Z2 as [|d Z2']; [symmetry in EZ2; apply app_eq_nil in EZ2; destruct EZ2; congruence|].
+  rewrite getz_cons_0 in *.
+  set (Y := w1 ++ 61 :: w2 ++ d :: Z2').
+  assert (HY : Y <> []) by (unfold Y; destruct w1; discriminate).
+  assert (EY : getz Y 0 = getz (w1 ++ [61]) 0) by (unfold Y; destruct w1; reflexivity).
+  assert (Hdisp : exists c X', name ++ Y = c :: X' /\ is_ws c = false /\ c <> 0 /\ c <> 62 /\
+                   ((c = 47 \/ c = 63) -> X' <> [] /\ getz X' 0 <> 62)).
+  { destruct name as [|c n'].
+    - pose proof (Hne eq_refl) as Ew. exists 61, (w2 ++ d :: Z2'). unfold Y. rewrite Ew. cbn [app].
+      split; [reflexivity|]. split; [reflexivity|]. split; [lia|]. split; [lia|]. intros [H|H]; discriminate.
+    - exists c, (n' ++ Y). split; [reflexivity|]. pose proof (name_run_head _ _ _ _ Hn) as Hs.
+      assert (E : match n' with [] => getz (w1 ++ [61]) 0 | c1 :: _ => c1 end = getz (n' ++ Y) 0)
+        by (destruct n'; [cbn [app]; rewrite EY|]; reflexivity).
+      rewrite E in Hs. destruct (stop_false_facts _ _ Hs) as (F1 & F2 & F3 & F4 & F5).
+      split; [exact F1|]. split; [exact F2|]. split; [exact F3|]. intros Hc. split; [|apply F5; exact Hc].
+      destruct n'; [exact HY|discriminate]. }
+  destruct Hdisp as (c & X' & EX & E1 & E2 & E3 & E4).
+  assert (Hnx : next (sin pre (lead ++ name ++ Y) tx ax) =
+                Some (TAttribute, Some (len pre, len pre + len tk6),
+                      mkX (cur (pre ++ tk6) [] R) false true
+                          (Some (len pre + len lead, len pre + len (lead ++ name)))
+                          (Some (len pre + len tk4, len pre + len tk6)))).
+  { rewrite EX. rewrite next_intag_attr by assumption. rewrite <- EX.
+    unfold shift_attribute. rewrite suffix_cur.
+    rewrite scan_name_run by (first [assumption | (rewrite EY; exact Hn) | (apply name_end_eq; exact Hw1)]).
+    cbn [option_bind]. rewrite mv_cur by reflexivity. rewrite suffix_cur. unfold Y.
+    rewrite (scan_while_app is_ws w1 61 _ Hw1 eq_refl). cbn [option_bind]. rewrite mv_cur by reflexivity.
+    rewrite pk_cur0. cbn [option_bind]. change (61 =? 61) with true. cbv iota.
+    rewrite mv_cur1. rewrite suffix_cur.
+    rewrite (scan_while_app is_ws w2 d _ Hw2 Dws).
+    cbn [option_bind]. rewrite mv_cur by reflexivity. fold tk4. rewrite pk_cur0. cbn [option_bind].
+    destruct (Z.eqb_spec d 34); [congruence|]. destruct (Z.eqb_spec d 39); [congruence|]. cbn [orb].
+    rewrite suffix_cur. rewrite EZ2.
+    rewrite scan_name_run by assumption. cbn [option_bind]. rewrite mv_cur by reflexivity. fold tk6.
+    rewrite !mark_cur.
+    assert (L46 : len tk4 <= len tk6) by (unfold tk6; rewrite len_app; pose proof (len_nonneg x); lia).
+    assert (L6 : len (lead ++ name) <= len tk6).
+    { pose proof (len_nonneg w1). pose proof (len_nonneg w2). unfold tk4 in L46. rewrite !len_app in L46.
+      rewrite len_app. change (len [61]) with 1 in L46. lia. }
+    rewrite lex_sub_cur by (pose proof (len_nonneg tk4); lia). cbn [option_bind fst snd].
+    rewrite lex_sub_cur by (rewrite ?len_app; pose proof (len_nonneg lead); pose proof (len_nonneg name); try lia;
+                            rewrite len_app in L6; lia).
+    cbn [option_bind]. rewrite shift_c_cur. cbn [option_bind fst snd]. reflexivity. }
+  assert (E6 : tk6 = lead ++ name ++ w1 ++ [61] ++ w2 ++ x).
+  { unfold tk6, tk4. rewrite <- !app_assoc. reflexivity. }
+  do 2 eexists.
+  pose proof (steps_one _ _ _ _ Hnx ltac:(discriminate)) as S.
+  unfold etok_of in S. cbn [xr xtext xattr] in S.
+  rewrite obs_cur in S.
+  assert (Ea : obs_sl (lbuf (cur (pre ++ tk6) [] R)) (Some (len pre + len tk4, len pre + len tk6)) = Some x).
+  { unfold tk6. apply (obs_cur_in2 pre tk4 x R); [reflexivity|]. rewrite len_app. lia. }
+  rewrite Ea in S. clear Ea. rewrite E6 in S.
+  rewrite (obs_cur_in pre lead name (w1 ++ [61] ++ w2 ++ x) R) in S by (rewrite ?len_app; lia).
+  unfold sin, Y in *. rewrite <- !app_assoc. cbn [app] in *. rewrite <- EZ2 in *. exact S.
+Qed.
+
+(* a name only: the whitespace after it is not part of the token *)
+Lemma lex_gattr_none pre lead name R tx ax :
+  gattr_ok (mkG lead name VNone) R ->
+  exists tx' ax', steps (sin pre (render_gattr (mkG lead name VNone) ++ R) tx ax)
+                        [expect_gattr (mkG lead name VNone)]
+                        (sin (pre ++ norm_gattr (mkG lead name VNone)) R tx' ax').
+Proof.
+  intros (Hlw & Hnn & Hn & HeR & (w & c2 & t & ER & Hw & Hc2 & H61)). cbn [g_lead g_name g_val] in *.
+  unfold render_gattr, expect_gattr, norm_gattr. cbn [g_lead g_name g_val render_gval norm_gval gval_obs].
+  rewrite !app_nil_r.
+  pose proof (name_end_nonnil _ _ HeR) as HR.
+  destruct name as [|c n']; [congruence|].
+  pose proof (name_run_head _ _ _ _ Hn) as Hs.
+  assert (E : match n' with [] => getz R 0 | c1 :: _ => c1 end = getz (n' ++ R) 0) by (destruct n'; reflexivity).
+  rewrite E in Hs. destruct (stop_false_facts _ _ Hs) as (F1 & F2 & F3 & F4 & F5).
+  set (name := c :: n') in *.
+  assert (Hnx : next (sin pre (lead ++ name ++ R) tx ax) =
+                Some (TAttribute, Some (len pre, len pre + len (lead ++ name)),
+                      mkX (cur (pre ++ lead ++ name) [] R) false true
+                          (Some (len pre + len lead, len pre + len (lead ++ name))) None)).
+  { unfold name at 1. cbn [app]. rewrite next_intag_attr; try assumption.
+    2:{ intros Hc. split; [destruct n'; [exact HR|discriminate]|apply F5; exact Hc]. }
+    change (c :: n' ++ R) with (name ++ R).
+    unfold shift_attribute. rewrite suffix_cur.
+    rewrite scan_name_run by assumption. cbn [option_bind]. rewrite mv_cur by reflexivity. rewrite suffix_cur.
+    rewrite ER. rewrite (scan_while_app is_ws w c2 t Hw Hc2). cbn [option_bind]. rewrite mv_cur by reflexivity.
+    rewrite pk_cur0. cbn [option_bind]. destruct (Z.eqb_spec c2 61); [congruence|].
+    rewrite !mark_cur. rewrite rewind_cur. cbn [option_bind fst snd].
+    rewrite lex_sub_cur by (rewrite ?len_app; pose proof (len_nonneg lead); pose proof (len_nonneg name); lia).
+    cbn [option_bind]. rewrite shift_c_cur. cbn [option_bind fst snd]. reflexivity. }
+  do 2 eexists.
+  pose proof (steps_one _ _ _ _ Hnx ltac:(discriminate)) as S.
+  unfold etok_of in S. cbn [xr xtext xattr obs_sl] in S.
+  assert (E1 : slice (lbuf (cur (pre ++ lead ++ name) [] R)) (len pre) (len pre + len (lead ++ name)) = lead ++ name).
+  { pose proof (obs_cur pre (lead ++ name) R) as H. unfold obs_sl in H. injection H as H. exact H. }
+  assert (E2 : slice (lbuf (cur (pre ++ lead ++ name) [] R)) (len pre + len lead) (len pre + len (lead ++ name)) = name).
+  { pose proof (obs_cur_in2 pre lead name R (len pre + len lead) (len pre + len (lead ++ name)) eq_refl
+                  ltac:(rewrite len_app; lia)) as H. unfold obs_sl in H. injection H as H. exact H. }
+  rewrite E1, E2 in S. unfold sin. rewrite <- !app_assoc. exact S.
+Qed.
+
+Lemma lex_gattr pre a R tx ax : gattr_ok a R ->
+  exists tx' ax', steps (sin pre (render_gattr a ++ R) tx ax) [expect_gattr a] (sin (pre ++ norm_gattr a) R tx' ax').
+Proof.
+  destruct a as [lead name [|w1 w2 x|w1 w2 q x]]; [apply lex_gattr_none|apply lex_gattr_unq|apply lex_gattr_quo].
+Qed.
+
+Lemma next_not_eq_app rest r : next_not_eq rest -> next_not_eq (rest ++ r).
+Proof.
+  intros (w & c & t & -> & H1 & H2 & H3). exists w, c, (t ++ r). rewrite <- app_assoc. cbn [app]. auto.
+Qed.
+
+(* the side conditions only look at the beginning of what follows *)
+Lemma gattr_ok_app a rest r : rest <> [] -> gattr_ok a rest -> gattr_ok a (rest ++ r).
+Proof.
+  intros Hne (Hl & Hv). split; [exact Hl|]. destruct (g_val a) as [|w1 w2 x|w1 w2 q x].
+  - destruct Hv as (H1 & H2 & H3 & H4). rewrite (getz_app_hd rest r) by exact Hne.
+    repeat split; try assumption; [apply name_end_app; exact H3|apply next_not_eq_app; exact H4].
+  - destruct Hv as (H1 & H2 & H3 & H4 & H5 & H6 & H7 & H8 & H9).
+    rewrite (getz_app_hd rest r) by exact Hne. rewrite (app_assoc x rest r). rewrite (getz_app_hd (x ++ rest)) by (destruct x; [exact Hne|discriminate]).
+    repeat split; try assumption. apply name_end_app; exact H6.
+  - exact Hv.
+Qed.
+
+Lemma lex_gattrs ps : forall pre tail r tx ax, tail <> [] -> gattrs_ok ps tail ->
+  exists tx' ax', steps (sin pre (render_gattrs ps ++ tail ++ r) tx ax) (map expect_gattr ps)
+                        (sin (pre ++ norm_gattrs ps) (tail ++ r) tx' ax').
+Proof.
+  induction ps as [|a ps IH]; intros pre tail r tx ax Ht Hok.
+  - exists tx, ax. cbn [render_gattrs norm_gattrs map concat app]. rewrite app_nil_r. apply steps_nil.
+  - destruct Hok as (Ha & Hrest).
+    unfold render_gattrs, norm_gattrs. cbn [map concat]. rewrite <- app_assoc.
+    assert (Ha' : gattr_ok a ((render_gattrs ps ++ tail) ++ r)).
+    { apply gattr_ok_app; [|exact Ha]. intros E. apply app_eq_nil in E. destruct E as (_ & E). exact (Ht E). }
+    rewrite <- app_assoc in Ha'.
+    destruct (lex_gattr pre a _ tx ax Ha') as (tx1 & ax1 & S1).
+    destruct (IH (pre ++ norm_gattr a) tail r tx1 ax1 Ht Hrest) as (tx2 & ax2 & S2).
+    exists tx2, ax2. rewrite (app_assoc pre (norm_gattr a)).
+    change (expect_gattr a :: map expect_gattr ps) with ([expect_gattr a] ++ map expect_gattr ps).
+    eapply steps_app; [exact S1|]. unfold render_gattrs, norm_gattrs in S2. exact S2.
+Qed.
+
 (* ---- whole tags, items, documents ------------------------------------------------------------------------------------ *)
 Lemma lex_attrs attrs : forall pre r tx ax, Forall attr_ok attrs ->
   exists tx' ax', steps (sin pre (render_attrs attrs ++ r) tx ax) (map expect_attr attrs)
@@ -964,13 +1329,16 @@ Proof.
 Qed.
 
 Lemma render_nontext_head it : item_ok it -> is_text it = false -> exists r', render_item it = 60 :: r'.
-Proof. destruct it; cbn [is_text render_item]; intros _ H; try discriminate; eexists; reflexivity. Qed.
+Proof.
+  destruct it as [t|b|b|ps|n attrs ws|n attrs ws void|n ws|pi n ps ws k]; cbn [is_text render_item]; intros _ H;
+    try discriminate; try (eexists; reflexivity). destruct pi; eexists; reflexivity.
+Qed.
 
 Lemma lex_item it pre r tx : item_ok it ->
   (is_text it = true -> exists c r', r = c :: r' /\ (c = 60 \/ c = 0)) ->
   exists tx', steps (sout pre (render_item it ++ r) tx) (expect_item it) (sout (pre ++ norm_item it) r tx').
 Proof.
-  intros Hok Htxt. destruct it as [t|b|b|ps|n attrs ws|n attrs ws void|n ws]; cbn [item_ok] in Hok;
+  intros Hok Htxt. destruct it as [t|b|b|ps|n attrs ws|n attrs ws void|n ws|pi n gs ws k]; cbn [item_ok] in Hok;
     cbn [render_item norm_item expect_item].
   - destruct Hok as (Hne & Ht). destruct (Htxt eq_refl) as (c & r' & -> & Hc). apply lex_text; assumption.
   - destruct Hok as (Hz & Hno). rewrite <- !app_assoc. apply lex_comment; [assumption|].
@@ -1005,6 +1373,33 @@ Proof.
     pose proof (lex_tag_rest (pre ++ [60] ++ n) attrs ws k r tx1 None Ha Hw Hk) as S2.
     rewrite <- !app_assoc in S2. exact S2.
   - destruct Hok as (Hn & Hw). rewrite <- !app_assoc. apply lex_endtag; assumption.
+  - destruct Hok as (Hn & H33 & Hw & Hk & Hgs & Hend).
+    assert (Htail : ws ++ closer_bytes k <> []).
+    { intros E. apply app_eq_nil in E. destruct E as (_ & E). destruct Hk as [->|[->| ->]]; discriminate. }
+    assert (Hend' : name_end false (render_gattrs gs ++ (ws ++ closer_bytes k) ++ r)).
+    { pose proof (name_end_app false _ r Hend) as H. rewrite <- !app_assoc in H. rewrite <- app_assoc. exact H. }
+    assert (Hopen : exists tx1, steps (sout pre (((if pi then [60; 63] else [60]) ++ n) ++ render_gattrs gs ++ (ws ++ closer_bytes k) ++ r) tx)
+                      [((if pi then TStartTagPI else TStartTag), Some ((if pi then [60; 63] else [60]) ++ n), Some n, None)]
+                      (sin (pre ++ (if pi then [60; 63] else [60]) ++ n) (render_gattrs gs ++ (ws ++ closer_bytes k) ++ r) tx1 None)).
+    { destruct pi; rewrite <- app_assoc.
+      - apply lex_pitarget; assumption.
+      - apply lex_starttag; [assumption|apply H33; reflexivity|assumption]. }
+    destruct Hopen as (tx1 & S1).
+    destruct (lex_gattrs gs (pre ++ (if pi then [60; 63] else [60]) ++ n) (ws ++ closer_bytes k) r tx1 None Htail Hgs) as (tx2 & ax2 & S2).
+    pose proof (lex_closer ((pre ++ (if pi then [60; 63] else [60]) ++ n) ++ norm_gattrs gs) ws k r tx2 ax2 Hw Hk) as S3.
+    exists None.
+    replace (((if pi then [60; 63] else [60]) ++ n ++ render_gattrs gs ++ ws ++ closer_bytes k) ++ r)
+      with (((if pi then [60; 63] else [60]) ++ n) ++ render_gattrs gs ++ (ws ++ closer_bytes k) ++ r)
+      by (rewrite <- !app_assoc; reflexivity).
+    replace (pre ++ (if pi then [60; 63] else [60]) ++ n ++ norm_gattrs gs ++ ws ++ closer_bytes k)
+      with (((pre ++ (if pi then [60; 63] else [60]) ++ n) ++ norm_gattrs gs) ++ ws ++ closer_bytes k)
+      by (rewrite <- !app_assoc; reflexivity).
+    change (((if pi then TStartTagPI else TStartTag), Some ((if pi then [60; 63] else [60]) ++ n), Some n, None)
+            :: map expect_gattr gs ++ [(k, Some (closer_bytes k), None, None)])
+      with ([((if pi then TStartTagPI else TStartTag), Some ((if pi then [60; 63] else [60]) ++ n), Some n, None)]
+            ++ (map expect_gattr gs ++ [(k, Some (closer_bytes k), None, None)])).
+    eapply steps_app; [exact S1|]. eapply steps_app; [exact S2|].
+    rewrite <- (app_assoc ws (closer_bytes k) r). exact S3.
 Qed.
 
 (* the terminal report at the end of the input is io.EOF *)
